@@ -26,6 +26,7 @@ M = [
  ('singleton extraction pushes the singleton once', 'C01', '`$S = { n: int }; fn get(self: $S) -> int { self.n } fn main() { get(); }` left one operand-stack slot per call (stack residue; 500 calls in a loop overflowed the stack limit)'),
  ('trigger statement drops the result slot', 'C01', '`trigger cb at minute(5);` left a nil operand-stack slot per statement (stack residue at exit)'),
  ('operand-stack overflow in the outermost frame', 'C09', 'any program whose operand stack exceeds StackMaxSize while `main` is the only frame (e.g. StackMaxSize=1 and `total += rec(0)` in main): Go panic "index out of range [-1]" in Core.Run instead of a StackOverflow interrupt'),
+ ('displayed with their fields in sorted order', 'C14', '`println(new { b: 1, a: 2 })`: one rotated map iteration in ValueObject.Display (either runtime) printed the fields in another order'),
 ]
 log = subprocess.check_output(['git', '-C', '/repo', 'log', '--reverse', '--format=%h %s']).decode().splitlines()
 fixed, unmatched = [], []
